@@ -19,6 +19,8 @@ EXTRA = {
                  "CREATE UNIQUE INDEX ixm{i} ON fm{i} (c DESC, a);"],
     "alter_more": ["CREATE TABLE s.am{i} (a int, b int, c varchar(5));", "ALTER TABLE s.am{i} MODIFY COLUMN b bigint;", "ALTER TABLE s.am{i} DROP COLUMN c;",
                    "ALTER TABLE s.am{i} ADD CONSTRAINT df{i} DEFAULT 7 FOR a;", "ALTER TABLE s.am{i} ADD CONSTRAINT pk{i} PRIMARY KEY (a);"],
+    # hive serde with an input.regex property (the regex is kept on the parser object's lexer while the statement is parsed)
+    "hql_serde_regex": ["CREATE EXTERNAL TABLE sr{i} (a string, b string)\nROW FORMAT SERDE 'org.apache.hadoop.hive.serde2.RegexSerDe'\nWITH SERDEPROPERTIES (\n  \"input.regex\" = \"([0-9]+);(.*)\"\n)\nSTORED AS TEXTFILE;"],
     # three-part (project-qualified) names mixed with two-part references to the same table
     "bq_project_alter": ["CREATE TABLE proj.ds.bq{i} (a int, b int);", "ALTER TABLE ds.bq{i} ADD c int;", "CREATE INDEX ix_bq{i} ON ds.bq{i} (a);"],
     "bq_project_alter2": ["CREATE TABLE ds.bp{i} (a int, b int);", "ALTER TABLE proj.ds.bp{i} ADD CONSTRAINT fkbp{i} FOREIGN KEY (a, b) REFERENCES p2.ds2.o (x, y);",
@@ -66,6 +68,10 @@ def gen_mixed(rng, n=None, kinds=None, with_unsupported=0.0, with_comments=0.0):
                 stmts.append("/* cmt%d before %s */" % (cn, k))                 # whole-line block comment (reported)
         stmts.extend(grp)
         ekinds.append(entity_kind(k))
+        if rng.random() < 0.06 and len(grp) == 1:
+            stmts.extend(grp)                      # the very same statement text once more (a re-runnable script)
+            ekinds.append(entity_kind(k))
+            picked.append(k)
         if with_unsupported and rng.random() < with_unsupported:
             stmts.append(rng.choice(uns)[1])
     return {"text": G.script(stmts), "kinds": picked, "entity_kinds": ekinds, "n_comments": cn}
